@@ -30,6 +30,27 @@ pub fn yield_point(label: &'static str) {
     }
 }
 
+//------------ controlled threads ---------------------------------------------
+
+thread_local! {
+    static CONTROLLED: std::cell::Cell<bool> = const {
+        std::cell::Cell::new(false)
+    };
+}
+
+/// Marks the current thread as being under control of a scheduler.
+///
+/// Locks taken by a controlled thread spin over `try_lock` with a yield
+/// point before each attempt instead of blocking inside the OS lock.
+pub fn set_controlled(controlled: bool) {
+    CONTROLLED.with(|c| c.set(controlled))
+}
+
+/// Returns whether the current thread is controlled.
+pub fn is_controlled() -> bool {
+    CONTROLLED.with(|c| c.get())
+}
+
 //------------ kill points ----------------------------------------------------
 
 static KILL_COUNT: AtomicU64 = AtomicU64::new(0);
@@ -103,6 +124,10 @@ pub enum Outcome {
     Retry,
     /// Fail with a fatal error.
     Fatal,
+    /// Perform the complete run, then fail with a retryable error.
+    RetryLate,
+    /// Perform the complete run, then fail with a fatal error.
+    FatalLate,
 }
 
 struct Outcomes {
@@ -122,6 +147,8 @@ fn parse_outcome(s: &str) -> Option<Outcome> {
         "ok" => Some(Outcome::Ok),
         "retry" => Some(Outcome::Retry),
         "fatal" => Some(Outcome::Fatal),
+        "retry-late" => Some(Outcome::RetryLate),
+        "fatal-late" => Some(Outcome::FatalLate),
         _ => None
     }
 }
